@@ -44,6 +44,11 @@ def _entries(h, rng, n):
                                          region, h.session))
             continue
         m.meta["Tag"] = rng.choice(["a", 3, None])
+        if rng.random() < 0.2:
+            # a message the proxy injected itself: it has no sequence number yet, whatever its direction and flags
+            m.packet_id = None
+            m.send_flags = 0x40
+            m.dropped = rng.random() < 0.5
         out.append(LLUDPMessageLogEntry(m, region, h.session))
     return out
 
@@ -145,6 +150,28 @@ def bounded_filters(reg, tier, seed):
                     if got != (want, want):
                         fail("filters/compare", f"{flt!r} on a message with Message={text!r} Channel={chan} ({'parsed off the wire' if off_wire else 'built in memory'}) "
                              f"gave {got}, the comparison is {want}", {"filter": flt, "Message": text, "Channel": chan, "off_wire": off_wire})
+        # (1f) vector fields compare component by component (a partial order): >= holds when every component is >=, also when some
+        # components are equal and the others strictly greater
+        from hippolyzer.lib.base.datatypes import Vector3 as _V3
+        for vec in ((1.0, 2.0, 3.0), (1.0, 1.0, 1.0), (0.0, 5.0, 1.0)):
+            mv = _M2("AgentUpdate", _B2("AgentData", AgentID=h.session.agent_id, SessionID=h.session.id, BodyRotation=(0.0, 0.0, 0.0, 1.0),
+                                          HeadRotation=(0.0, 0.0, 0.0, 1.0), State=0, CameraCenter=_V3(*vec), CameraAtAxis=(1.0, 0.0, 0.0),
+                                          CameraLeftAxis=(0.0, 1.0, 0.0), CameraUpAxis=(0.0, 0.0, 1.0), Far=64.0, ControlFlags=0, Flags=0),
+                     packet_id=903, direction=_D2.OUT)
+            ent = LLUDPMessageLogEntry(mv, h.session.regions[0], h.session)
+            for lit in ((1, 1, 1), (1, 2, 3), (0, 1, 2), (2, 2, 3), (2, 0, 0), (1, 5, 3)):
+                for o in ("<", ">", "<=", ">=", "=="):
+                    want = all(cmp_[o](a_, b_) for a_, b_ in zip(vec, lit))
+                    flt = f"AgentUpdate.AgentData.CameraCenter {o} {lit}"
+                    evals += 1
+                    seen.add(("vec", flt, vec))
+                    try:
+                        got = (bool(compile_filter(flt).match(ent, True)), bool(compile_filter(flt).match(ent, False)))
+                    except Exception as ex:  # noqa
+                        fail("filters/compare", f"{flt!r} raised {type(ex).__name__}: {ex}", {"filter": flt, "value": vec})
+                        continue
+                    if got != (want, want):
+                        fail("filters/compare", f"{flt!r} on a message with CameraCenter={vec} gave {got}, component by component it is {want}", {"filter": flt, "value": vec})
         # (1d) a byte-string field of a message parsed off the wire (text-or-binary fields decode to a bytes type that also compares
         # with str): for one selected field, `!=` holds exactly when `==` does not - whatever the literal's type
         gm = _M2("GenericMessage", _B2("AgentData", AgentID=h.session.agent_id, SessionID=h.session.id, TransactionID=UUID_ZERO()),
@@ -375,7 +402,8 @@ def bounded_filters(reg, tier, seed):
                 ma, mb = a.message, b.message
                 # "preserves the logged message": same name, id, flags, direction, meta and the same datagram when encoded
                 # (LLSD notation carries vectors as arrays, so Python-level tuple/list identity is not part of the claim)
-                same = (ma.name == mb.name and ma.packet_id == mb.packet_id and int(ma.send_flags) == int(mb.send_flags)
+                same = (ma.name == mb.name and ma.packet_id == mb.packet_id and int(ma.send_flags) == int(mb.send_flags) and bool(ma.dropped) == bool(mb.dropped)
+                        and dict(ma.meta) == dict(mb.meta)
                         and ma.direction == mb.direction and tuple(ma.acks) == tuple(mb.acks) and ser.serialize(ma) == ser.serialize(mb)
                         # the same block lists, empty ones included (msg["Location"] is [] before and after, not a KeyError)
                         and {k: len(v) for k, v in ma.blocks.items()} == {k: len(v) for k, v in mb.blocks.items()})
